@@ -555,3 +555,72 @@ Proof.
   - apply N.ltb_ge in E. change (2 ^ (64 - 1))%N with 9223372036854775808%N in E.
     change (2 ^ 64)%N with 18446744073709551616%N in Hlt. change (Z.of_N 64) with 64%Z. lia.
 Qed.
+
+(* ===== part 8: the length premise is not needed =====
+   `total_len as i64` wraps and Java's length does not, but both enter the hash only through
+   xor followed by wrapping additions, i.e. modulo 2^64. *)
+Lemma lxor_mod64 a x y : (x mod 2 ^ 64 = y mod 2 ^ 64 -> Z.lxor a x mod 2 ^ 64 = Z.lxor a y mod 2 ^ 64)%Z.
+Proof.
+  intros H. apply Z.bits_inj'. intros n Hn. destruct (Z.lt_ge_cases n 64) as [Hl|Hg].
+  - rewrite !Z.mod_pow2_bits_low by lia. rewrite !Z.lxor_spec. f_equal.
+    rewrite <- (Z.mod_pow2_bits_low x 64 n) by lia. rewrite H. apply Z.mod_pow2_bits_low. lia.
+  - rewrite !Z.mod_pow2_bits_high by lia. reflexivity.
+Qed.
+
+Lemma wrap64_congr z : (wrap64 z mod 2 ^ 64 = z mod 2 ^ 64)%Z.
+Proof. rewrite wrap64_mod. lia. Qed.
+
+Lemma m3_final_j_all a b len :
+  m3_final a b len = j_normalize (fst (j_final a b (Z.of_N len))).
+Proof.
+  unfold m3_final, j_final. cbv zeta. cbn [fst].
+  rewrite final_word by apply wrap64_range. rewrite token_new_j.
+  set (X := wrap64 (Z.of_N len)). set (L := Z.of_N len).
+  assert (HX : (X mod 2 ^ 64 = L mod 2 ^ 64)%Z) by apply wrap64_congr.
+  assert (H1 : wadd (Z.lxor a X) (Z.lxor b X) = jadd (jxor a L) (jxor b L)).
+  { unfold wadd, jadd, jxor. rewrite <- wrap64_jlong. apply wrap64_mod_eq.
+    pose proof (lxor_mod64 a X L HX). pose proof (lxor_mod64 b X L HX).
+    rewrite Z.add_mod by lia. rewrite (Z.add_mod (Z.lxor a L)) by lia. congruence. }
+  rewrite H1. set (S := jadd (jxor a L) (jxor b L)).
+  assert (H2 : wadd (Z.lxor b X) S = jadd (jxor b L) S).
+  { unfold wadd, jadd, jxor. rewrite <- wrap64_jlong. apply wrap64_mod_eq.
+    pose proof (lxor_mod64 b X L HX).
+    rewrite Z.add_mod by lia. rewrite (Z.add_mod (Z.lxor b L)) by lia. congruence. }
+  rewrite H2. rewrite !wadd_j, !fmix_j. reflexivity.
+Qed.
+
+Lemma m3_inv_finish_all st s : m3_inv st s -> m3_finish st = murmur3_token_spec s.
+Proof.
+  intros (Hlen & Hbuf & Htail & Hh).
+  remember (length s / 16) as q eqn:Hq. remember (length s mod 16) as r eqn:Hrd.
+  assert (Hr : r < 16) by lia.
+  assert (Hbl : N.to_nat (total_len st mod 16) = r) by (rewrite Hlen; lia).
+  assert (Hbyte : forall i, i < r -> sext8 (nth i (buf st) 0%N) = j_sbyte s (q * 16 + i)).
+  { intros i Hi. rewrite <- (nth_firstn' 0%N (buf st) r i Hi), Htail, nth_skipn'.
+    rewrite sext8_j. f_equal. lia. }
+  set (b := fun i => j_sbyte s (q * 16 + i)).
+  assert (Hk2 : m3_tail_k2 (buf st) r = j_tail_k2 b r).
+  { unfold m3_tail_k2. rewrite <- tail_k2_eq by exact Hr. apply fold_left_ext_in.
+    intros x a Hx. apply in_rev, in_seq in Hx. unfold b. rewrite Hbyte by lia. reflexivity. }
+  assert (Hk1 : m3_tail_k1 (buf st) r = j_tail_k1 b r).
+  { unfold m3_tail_k1. rewrite <- tail_k1_eq by (unfold b, j_sbyte; lia). apply fold_left_ext_in.
+    intros x a Hx. apply in_rev, in_seq in Hx. unfold b. rewrite Hbyte by lia. reflexivity. }
+  unfold m3_finish. rewrite Hbl. cbv zeta. rewrite Hk1, Hk2.
+  rewrite m3_final_j_all.
+  unfold murmur3_token_spec, murmur3_spec, hash3_x64_128.
+  rewrite <- Hq, <- Hrd, <- Hh. cbv zeta. fold b.
+  rewrite Hlen, nat_N_Z.
+  rewrite !wmul_j, !C1_j, !C2_j. rewrite !rotl64_j by lia.
+  reflexivity.
+Qed.
+
+Theorem m3_chunking_all chunks :
+  m3_finish (fold_left m3_write chunks m3_init) = murmur3_token_spec (concat chunks).
+Proof. apply m3_inv_finish_all. apply (m3_inv_fold chunks m3_init []). apply m3_inv_init. Qed.
+
+Theorem feed_chunking_all p chunks : feed p chunks = token_spec p (concat chunks).
+Proof.
+  unfold feed, token_spec. destruct p; cbn [build_hasher].
+  - rewrite fold_hasher_m3. cbn [hasher_finish]. apply m3_chunking_all.
+  - rewrite fold_hasher_cdc. cbn [hasher_finish]. apply cdc_chunking.
+Qed.
